@@ -2,6 +2,7 @@ package core
 
 import (
 	"fmt"
+	"go/ast"
 	"go/constant"
 	"go/token"
 	"go/types"
@@ -9,6 +10,7 @@ import (
 	"sort"
 	"strings"
 
+	"golang.org/x/tools/go/packages"
 	"golang.org/x/tools/go/ssa"
 )
 
@@ -19,10 +21,10 @@ import (
 
 // AState is the mutable part of an abstract execution (cloned at forks).
 type AState struct {
-	Assume  map[string]bool       // symbolic bit → assumed value on this path
-	Cells   map[*ssa.Alloc]*AVal  // scalar local cells
-	PCells  map[string]*AVal      // struct-field cells keyed by access path
-	Arrays  map[int][]*AVal       // byte arrays
+	Assume  map[string]bool        // symbolic bit → assumed value on this path
+	Cells   map[*ssa.Alloc]*AVal   // scalar local cells
+	PCells  map[string]*AVal       // struct-field cells keyed by access path
+	Arrays  map[int][]*AVal        // byte arrays
 	FV      map[*ssa.FreeVar]*AVal // values captured by closures (by value, or array objects)
 	Alias   map[string]*AVal       // alias symbols "@k": a value whose bits were spread over bytes (keeps its interval / linear form)
 	nextArr int
@@ -86,11 +88,11 @@ func (s *AState) Bytes(v *AVal) []*AVal {
 
 // Outcome is one abstract path through the analysed function.
 type Outcome struct {
-	Ret    []*AVal
-	Panic  bool
-	Why    string // panic / abort reason
-	Abort  bool   // analysis gave up on this path (⊤): loop bound, unsupported construct
-	St     *AState
+	Ret   []*AVal
+	Panic bool
+	Why   string // panic / abort reason
+	Abort bool   // analysis gave up on this path (⊤): loop bound, unsupported construct
+	St    *AState
 }
 
 // Interp configures an abstract run.
@@ -396,7 +398,13 @@ func (it *Interp) runFrom(fr *frame, b *ssa.BasicBlock, i int, pred *ssa.BasicBl
 				}
 			}
 			fr.env[x] = OpaqueV("closure:" + FnName(fr.fn))
-		case *ssa.Lookup, *ssa.TypeAssert, *ssa.MakeMap, *ssa.MakeChan, *ssa.Range, *ssa.Next, *ssa.Select, *ssa.SliceToArrayPointer, *ssa.MultiConvert:
+		case *ssa.Lookup:
+			if v := it.constMapLookup(fr, st, x); v != nil {
+				fr.env[x] = v
+			} else {
+				fr.env[x] = it.topOf(x.Type())
+			}
+		case *ssa.TypeAssert, *ssa.MakeMap, *ssa.MakeChan, *ssa.Range, *ssa.Next, *ssa.Select, *ssa.SliceToArrayPointer, *ssa.MultiConvert:
 			if v, ok := in.(ssa.Value); ok {
 				fr.env[v] = it.topOf(v.Type())
 			}
@@ -1391,4 +1399,155 @@ func MatchBool(v *AVal, assume map[string]bool, sym string, idx int) string {
 		return fmt.Sprintf("is %s, expected %s", v.B, want)
 	}
 	return ""
+}
+
+// constMapLookup evaluates `table[k]` / `v, ok := table[k]` on a package-level map of integer constants that is initialised by a
+// literal and never updated (a lookup table standing in for a switch): exact when the key's range contains no key of the table
+// (the zero value, ok=false) or is a single key of it. nil = not such a lookup or not exact.
+func (it *Interp) constMapLookup(fr *frame, st *AState, x *ssa.Lookup) *AVal {
+	ld, ok := x.X.(*ssa.UnOp)
+	if !ok || ld.Op != token.MUL {
+		return nil
+	}
+	g, ok := ld.X.(*ssa.Global)
+	if !ok {
+		return nil
+	}
+	tbl, ok := it.constIntMap(g)
+	if !ok {
+		return nil
+	}
+	mt, ok := g.Type().Underlying().(*types.Pointer).Elem().Underlying().(*types.Map)
+	if !ok {
+		return nil
+	}
+	w, signed, ok := it.intType(mt.Elem())
+	if !ok {
+		return nil
+	}
+	key := it.get(fr, st, x.Index)
+	if key == nil || key.K != AInt || key.Lo == nil || key.Hi == nil {
+		return nil
+	}
+	n := 0
+	var hit int64
+	for k, v := range tbl {
+		kb := bi(k)
+		if kb.Cmp(key.Lo) >= 0 && kb.Cmp(key.Hi) <= 0 {
+			n++
+			hit = v
+		}
+	}
+	var val, okv *AVal
+	switch {
+	case n == 0:
+		val, okv = ConstAInt(bi(0), w, signed), ConstBoolV(false)
+	case n == 1 && key.Lo.Cmp(key.Hi) == 0:
+		val, okv = ConstAInt(bi(hit), w, signed), ConstBoolV(true)
+	default:
+		return nil
+	}
+	if x.CommaOk {
+		return TupleV(val, okv)
+	}
+	return val
+}
+
+var constIntMapCache = map[*ssa.Global]map[int64]int64{}
+
+func (it *Interp) constIntMap(g *ssa.Global) (map[int64]int64, bool) {
+	if m, seen := constIntMapCache[g]; seen {
+		return m, m != nil
+	}
+	constIntMapCache[g] = nil
+	if g.Pkg == nil {
+		return nil, false
+	}
+	var pk *packages.Package
+	for _, q := range it.P.Pkgs {
+		if q.Types == g.Pkg.Pkg {
+			pk = q
+		}
+	}
+	if pk == nil {
+		return nil, false
+	}
+	lit, _ := VarLiteral(pk, g.Name())
+	if lit == nil {
+		return nil, false
+	}
+	out := map[int64]int64{}
+	for _, el := range lit.Elts {
+		kv, isKV := el.(*ast.KeyValueExpr)
+		if !isKV {
+			return nil, false
+		}
+		kc, vc := pk.TypesInfo.Types[kv.Key].Value, pk.TypesInfo.Types[kv.Value].Value
+		if kc == nil || vc == nil {
+			return nil, false
+		}
+		k, okK := constant.Int64Val(constant.ToInt(kc))
+		v, okV := constant.Int64Val(constant.ToInt(vc))
+		if !okK || !okV {
+			return nil, false
+		}
+		if _, dup := out[k]; dup {
+			return nil, false
+		}
+		out[k] = v
+	}
+	// never updated outside its initialiser
+	mutated := false
+	for _, m := range g.Pkg.Members {
+		check := func(f *ssa.Function) {
+			if f == nil || f.Name() == "init" {
+				return
+			}
+			for _, fn := range withAnonPlain(f) {
+				for _, b := range fn.Blocks {
+					for _, in := range b.Instrs {
+						for _, op := range in.Operands(nil) {
+							if *op != ssa.Value(g) {
+								continue
+							}
+							// the only allowed use of the global is a load whose value is looked up (or measured / ranged over)
+							ld, isLd := in.(*ssa.UnOp)
+							if !isLd {
+								mutated = true
+								continue
+							}
+							for _, u := range Referrers(ld) {
+								switch u.(type) {
+								case *ssa.Lookup, *ssa.Range, *ssa.DebugRef:
+								default:
+									if c, isC := u.(*ssa.Call); isC {
+										if bt, isB := c.Call.Value.(*ssa.Builtin); isB && bt.Name() == "len" {
+											continue
+										}
+									}
+									mutated = true
+								}
+							}
+						}
+					}
+				}
+			}
+		}
+		switch x := m.(type) {
+		case *ssa.Function:
+			check(x)
+		case *ssa.Type:
+			for _, t := range []types.Type{x.Type(), types.NewPointer(x.Type())} {
+				ms := it.P.SSA.MethodSets.MethodSet(t)
+				for i := 0; i < ms.Len(); i++ {
+					check(it.P.SSA.MethodValue(ms.At(i)))
+				}
+			}
+		}
+	}
+	if mutated {
+		return nil, false
+	}
+	constIntMapCache[g] = out
+	return out, true
 }
